@@ -129,6 +129,16 @@ def run(ctx):
     # chained numbers: the page of one citation is at the same time the volume of the next one (candidates that
     # overlap in one number), with nominative and ordinary reporters on either side
     docs += ["See 2 Cooke, 93 Wn. App. 526, 529 (1999).", "1 Thompson 394 U. S. 618", "In re Cooke, 93 Wn. App. 526"]
+    # D24: a reference to an earlier case that runs into the volume of the next citation, with another citation
+    # (section mark, id.) inside the full span of that next citation in between
+    docs += ["Foo v. Smith, 5 U.S. 5 (1999). Bar v. Baz, § 3, Smith at 1 U.S. 1 (2000).",
+             "Foo v. Smith, 5 U.S. 5 (1999). See Bar v. Baz, Id. Smith at 1 U.S. 1 (2000)."]
+    for _ in range(200 if th else 30):
+        a, b, c_, d_ = rng.sample(textgen.NAMES, 4)
+        mid = rng.choice(["§ 3, ", "Id. ", "id. at 4, ", "§§ 3-4; ", "", "42 U.S.C. § 1983, "])
+        ref = rng.choice([a, b])
+        docs.append(f"{a} v. {b}, {rng.choice([5, 12])} U.S. {rng.choice([5, 99])} (1999). {rng.choice(['', 'See '])}{c_} v. {d_}, {mid}"
+                    f"{ref} at {rng.choice([1, 12])} {rng.choice(['U.S.', 'F.3d', 'S. Ct.'])} {rng.choice([1, 45])} (2000).")
     for _ in range(300 if th else 40):
         r1 = rng.choice(textgen.NOMINATIVE + ["U.S.", "F.2d", "Mass."])
         r2 = rng.choice(["U. S.", "Wn. App.", "F.3d", "S. Ct."] + textgen.NOMINATIVE)
